@@ -47,9 +47,9 @@ def cases(rng, tier):
             pw = rng.choice(G.PASSWORDS) if (any(c["f"] == "AES" for c in ch) or rng.random() < 0.15) else None
             app = None
             if rng.random() < 0.4:
-                ch2 = [c for c in G.chain(rng) if c["f"] not in ("DEFLATE64",) and (pw is not None or c["f"] != "AES")] or [{"f": "COPY"}]
-                if not any(c["f"] in G.COMPRESSORS for c in ch2):
-                    ch2 = [{"f": "LZMA2", "preset": 1}] + ch2
+                ch2 = G.chain(rng, aes=(None if pw is not None else False))
+                if any(c["f"] == "DEFLATE64" for c in ch2):  # py7zr refuses Deflate64 on append
+                    ch2 = G.chain(rng, comp="DEFLATE", aes=(None if pw is not None else False))
                 app = {"members": G.member_list(rng, n=rng.choice([1, 2, 3]), max_len=10000), "chain": ch2}
                 for m in app["members"]:
                     m["name"] = "app/" + m["name"]
